@@ -235,7 +235,7 @@ class CHarness:
             if isinstance(f.data_type, pydsdl.ArrayType):
                 o.append('    printf("CAP %s %%llu\\n", (unsigned long long) %s_%s_ARRAY_CAPACITY_);' % (f.name, n, self.fid(f)))
         for c in it.constants:
-            cn = "%s_%s" % (n, self.lang.filter_id(c))
+            cn = "%s_%s" % (n, c.name)   # the C template emits the raw constant name after the type prefix
             dt = c.data_type
             if isinstance(dt, pydsdl.FloatType):
                 if dt.bit_length == 64:
